@@ -22,7 +22,7 @@ LEVEL_TEXT = ('every schedule of the visible operations of the concurrent proces
 LEVEL_NOTE = ('visible = operations with an entry path in the shared zone (trash dir and its not-yet-existing ancestors); the independence of all other operations is checked by an audit over '
               'the recorded traces, a hit is a harness error; state hashing uses the observation history of each process (sound, finer than necessary)')
 RULE = ('(a) histories of length <= 4 (thorough 6) over {put file a from d1, put dir a from d2, put symlink a from d3} from 5 initial trash states (empty, orphan file payload, orphan dir payload, '
-        'orphan info, both at a_1); 100 pre-existing entries + 3 puts x all random answer sequences of length 4 over {existing pair, orphan payload, orphan info, fresh}; (b) concurrent harnesses: '
+        'orphan info, both at a_1); names of 244-255 bytes trashed three times (truncation branch); 100 pre-existing entries + 3 puts x all random answer sequences of length 4 over {existing pair, orphan payload, orphan info, fresh}; (b) concurrent harnesses: '
         '2 puts warm, 2 puts cold (first use, the makedirs race), file+dir mix warm, 3 puts warm (thorough: unbounded; quick: preemption bound 2), 2 puts into .Trash-uid cold; distinct = terminal outcome classes per harness')
 B = '/home/u'
 TD = scen.HOME_TRASH
@@ -170,21 +170,21 @@ def seq_world(init):
     return W
 
 
-def put_step(sb, kind_i, k, n, randints=None):
+def put_step(sb, kind_i, k, n, randints=None, name='a'):
     """re-create entry `a` of kind k in its directory, trash it, check the step invariant; -> (violation|None, state hash)"""
     d = '%s/s%d' % (B, kind_i)
     Wx = world.World()
     Wx.nodes, Wx.order = {}, []
-    scen.add_entry(Wx, d + '/a', k, tag=' #%d' % n)
-    nodes = [Wx.nodes[p] for p in Wx.order if p.startswith(d + '/a')]
+    scen.add_entry(Wx, d + '/' + name, k, tag=' #%d' % n)
+    nodes = [Wx.nodes[p] for p in Wx.order if p.startswith(d + '/' + name)]
     for i, nd in enumerate(nodes):
         nd[3] = (world.T0 + 500 + 10 * n + i) * 10 ** 9
     world.build(sb.root, nodes)
     before = sb.snapshot()
     plan = {'randints': randints} if randints is not None else None
-    r = sb.run(['trash-put', 'a'], cwd=d, env={'HOME': B}, now='2024-05-06T07:%02d:%02d' % (n // 60, n % 60), plan=plan)
+    r = sb.run(['trash-put', name], cwd=d, env={'HOME': B}, now='2024-05-06T07:%02d:%02d' % (n // 60, n % 60), plan=plan)
     after = sb.snapshot()
-    cl = scen.classify_put(before, after, d + '/a')
+    cl = scen.classify_put(before, after, d + '/' + name)
     detail = {'exit': r.exit, 'err': r.err[-300:], 'state': cl['state'], 'why': cl['why'], 'new': [cl['new_infos'], cl['new_payloads']]}
     if r.exit != 0 or cl['state'] != 'TRASHED':
         return ('C04|sequential-put-not-a-clean-new-pair|state=%s' % cl['state'], 'seq-not-trashed', detail), None
@@ -215,7 +215,7 @@ def seq_case(c):
             rnd = [m.get(a, None) for a in c['answers']]
             rnd = [v if v is not None else 5000 + i for i, v in enumerate(rnd)]
         for n, ai in enumerate(c['hist']):
-            v, h = put_step(sb, ai, SEQ_ACTIONS[ai], n, randints=rnd)
+            v, h = put_step(sb, ai, SEQ_ACTIONS[ai], n, randints=rnd, name=c.get('name', 'a'))
             if rnd is not None:
                 rnd = rnd[1:] if False else rnd       # answers are consumed inside one process; each put restarts the list
             if v:
@@ -235,6 +235,9 @@ def seq_cases(tier):
                 out.append({'init': init, 'hist': list(h)})
     # only maximal histories are needed (every prefix is checked on the way); keep shorter ones out
     out = [c for c in out if len(c['hist']) == depth]
+    for ln in (244, 245, 246, 250, 255):
+        for h in itertools.product(range(3), repeat=3):
+            out.append({'init': 'empty', 'hist': list(h), 'name': 'N' * ln})      # the ENAMETOOLONG truncation branch, colliding
     for ans in itertools.product(['pair', 'payload', 'info', 'fresh'], repeat=4):
         out.append({'init': 'empty', 'hist': [0], 'hundred': True, 'answers': list(ans)})
         out.append({'init': 'empty', 'hist': [1], 'hundred': True, 'answers': list(ans)})
